@@ -190,8 +190,8 @@ func RunParent(cfg ParentConfig) int {
 		os.MkdirAll(cfg.ReplayDir, 0o755)
 		for i, v := range newV {
 			if i >= 25 {
-				fmt.Printf("... %d more distinct violations not written as replay files\n", len(newV)-i)
-				break
+				fmt.Printf("  (no replay file) sig: %s\n     what: %s (seen %d)\n", v.Sig, oneLine(v.What), v.Count)
+				continue
 			}
 			path := filepath.Join(cfg.ReplayDir, fmt.Sprintf("v%03d.json", i))
 			b, _ := json.MarshalIndent(map[string]any{"property": cfg.Property, "tier": cfg.Tier, "seed": cfg.Seed, "violation": v}, "", " ")
